@@ -340,9 +340,11 @@ def sim_histories(rep, module, cfg, consts, label, header, name, num, depth, wor
     seen = set()
     n = 0
     for s in vlib.emitted_lines(so):
-        if s in seen or n >= num:
+        # TLC evaluates the emitting invariant on every candidate successor of the last step: keep one walk per prefix
+        key = s[:s.rfind(",[")] if ",[" in s else s
+        if key in seen or n >= num:
             continue
-        seen.add(s)
+        seen.add(key)
         fh[n % PARTS].write(s + "\n")
         if n < 2:
             rep.sample({"walk_prefix": json.loads(s)[:12], "walk_length": len(json.loads(s))})
@@ -668,6 +670,138 @@ def walk_files(rep, prefix, kind, quick):
 V_REF = {"name": "ref-commit-at-end-1worker", "sched": "end", "mode": "det", "workers": 1, "faults": 0}
 
 
+# ---------------------------------------------------------------------------
+# nested engine (Nested.tla generator / NestedTrace.tla)
+
+def nested_stage(rep, prefix, tcfg, what, T, sizes, num, depth, maxc=6, maxe=6, persist=True, nkeys=4, kinds='{"A", "M", "C"}'):
+    nm = "%s-nested%d" % (prefix, T)
+    wf, wn = sim_histories(rep, "Nested.tla", "Nested.cfg",
+                           {"MaxC": maxc, "MaxE": maxe, "Sizes": sizes, "NKeys": nkeys, "Persist": "TRUE" if persist else "FALSE", "Kinds": kinds},
+                           "Nested T=%d MaxC=%d MaxDepth=3 MaxE=%d Sizes=%s" % (T, maxc, maxe, sizes), {"cfg": {"T": T}}, nm, num, depth)
+    base = len(rep.distinct)
+    rep.distinct.update(range(base, base + wn))
+    hist_stage(rep, nm, ["nested-run"], "nested", "NestedTrace.tla", tcfg, wf, "full", what)
+
+
+def compact_family(rep, prefix, tcfg, what):
+    """Scripted scenario family (DESIGN 2.2): n same-typed composite child maps with the same key set under one parent
+    (array or map), commit, reload (crash or cache drop), handle to one child by lookup or mutable iteration, remove /
+    overwrite / add a field through it, then read every sibling; commit and reload again."""
+    hists = []
+    vid = [0]
+    for parent in ("A", "M"):
+        for n in (2, 3):
+            for nk in (2, 3):
+                for reload in ("crash", "dropcache"):
+                    for how in ("get", "iter"):
+                        for victim in range(n):
+                            for key in range(1, nk + 1):
+                                for act in ("rem", "set", "add"):
+                                    h = [["root", 1, "A"]]
+                                    p = 1
+                                    nxt = 2
+                                    ids = iter(range(1, 1000))
+                                    if parent == "M":
+                                        h.append(["n.appc", 1, nxt, "M", 0])
+                                        p = nxt
+                                        nxt += 1
+                                    kids = []
+                                    for c in range(n):
+                                        if parent == "A":
+                                            h.append(["n.appc", p, nxt, "C", 0])
+                                        else:
+                                            h.append(["n.msetc", p, c + 1, 5, nxt, "C", 0])
+                                        kids.append(nxt)
+                                        nxt += 1
+                                    for c in kids:
+                                        for k in range(1, nk + 1):
+                                            h.append(["n.mset", c, k, 5, next(ids), 12, 0, False, 0])
+                                    h.append(["commit", "det", 1, 0])
+                                    h.append([reload])
+                                    if parent == "M":
+                                        h.append(["n.get", 1, 0, p])
+                                    if how == "get":
+                                        if parent == "A":
+                                            h.append(["n.get", p, victim, kids[victim]])
+                                        else:
+                                            h.append(["n.mget", p, victim + 1, 5, kids[victim]])
+                                    else:
+                                        h.append(["n.iter", p])
+                                    v = kids[victim]
+                                    if act == "rem":
+                                        h.append(["n.mrem", v, key, 5, False, 0])
+                                    elif act == "set":
+                                        h.append(["n.mset", v, key, 5, next(ids), 12, 0, False, 0])
+                                    else:
+                                        h.append(["n.mset", v, nk + 1, 5, next(ids), 12, 0, False, 0])
+                                    h.append(["commit", "nondet", 2, 0])
+                                    h.append(["crash"])
+                                    hists.append(h)
+    quick = rep.tier == "quick"
+    if quick:
+        hists = [h for h in hists if (vlib.stable_hash(json.dumps(h)) + rep.seed) % 3 == 0]
+    files = [os.path.join(vlib.scratch(), "%s-fam-h-%d.ndjson" % (prefix, k)) for k in range(PARTS)]
+    fh = [open(f, "w") for f in files]
+    for f in fh:
+        f.write(json.dumps({"cfg": {"T": 256}}) + "\n")
+    for i, h in enumerate(hists):
+        fh[i % PARTS].write(json.dumps(h) + "\n")
+    for f in fh:
+        f.close()
+    rep.sample({"compact_family_history": hists[0]})
+    base = len(rep.distinct)
+    rep.distinct.update(range(base, base + len(hists)))
+    hist_stage(rep, prefix + "-compact-family", ["nested-run"], "nested", "NestedTrace.tla", tcfg, files, "full", what)
+
+
+def nested_stages(rep, prefix, tcfg, what):
+    quick = rep.tier == "quick"
+    plans = [(256, "{12, 60, 110}", 200 if quick else 1500, 100 if quick else 200, 6, 6),
+             (256, "{12, 40, 100}", 120 if quick else 1000, 120 if quick else 250, 8, 8)]
+    if not quick:
+        plans += [(512, "{12, 120, 240}", 600, 250, 8, 8), (1024, "{12, 250, 490}", 300, 250, 8, 8)]
+    for (T, sizes, num, depth, maxc, maxe) in plans:
+        nested_stage(rep, "%s-%s" % (prefix, sizes.strip("{}").replace(", ", "_")), tcfg, what, T, sizes, num, depth, maxc, maxe)
+    # same-typed composite maps with the same small key set: siblings share the compact encoding when inlined
+    nested_stage(rep, prefix + "-compact", tcfg, what, 256, "{12}", 120 if quick else 1000, 100 if quick else 200, 7, 4, nkeys=2, kinds='{"C"}')
+    compact_family(rep, prefix, tcfg, what)
+    rep.exhaustive = False
+
+
+def check_C10(rep):
+    rep.rule = ("TLC simulates walks of the Nested model (heap of up to 6-8 arrays and maps, depth 3, wrapped and unwrapped children, any "
+                "number of live handles under the handle-tree discipline, mutation through any live handle, parent restructured in between, "
+                "children crossing the inline limits both ways, detach/keep/dispose/re-attach, commit / cache drop / crash); each walk is "
+                "replayed into the real code; after every step everything read through every root must expand to the model forest "
+                "(ReadsThrough), after every commit a brand-new storage must read the same forest from the registers (Persisted), every "
+                "container at every depth must satisfy TreeInv (AllValid) and be inlined exactly when it fits (InlineRule)")
+    rep.assumptions += ["handle-tree discipline (DESIGN 4.2): one live handle object per container; re-acquiring a handle retires the handles obtained through the old one; cache drops and reopenings retire non-root handles"]
+    nested_stages(rep, "c10", "NestedTrace_C10.cfg", "nested container diverges from the heap model")
+
+
+def check_C11(rep):
+    rep.rule = ("same walks as C10 (they contain removal / overwrite of children that are kept by the caller, mutation of the detached "
+                "child through its old handle, re-attachment elsewhere, parent mutated in between); verdict predicates: ReadsThrough (the "
+                "former parent's content follows the model, which changes only the detached container), OtherRootsUntouched (the slabs of "
+                "every other root are identical before and after a mutation of a detached container), RootsStandalone (a kept container is "
+                "an independently stored root value), Persisted (it reloads by its identifier)")
+    nested_stages(rep, "c11", "NestedTrace_C11.cfg", "detached container / stale handle affects another root")
+
+
+def check_C09(rep):
+    rep.rule = ("after every operation of array, map and nested histories (the harness disposes of or keeps, as the TLC history dictates, every "
+                "value handed back) the set of slab identifiers in the storage view must equal the set reachable from the roots held by the caller")
+    quick = rep.tier == "quick"
+    consts = {"EmitEdges": "TRUE", "MaxElems": 5 if quick else 6, "T": 256}
+    files, n, total = model_histories(rep, "MC_Array.tla", "MC_Array.cfg", consts, "MC_Array T=256 MaxElems=%d" % consts["MaxElems"],
+                                      {"cfg": {"T": 256}}, lambda ops, key: frac(key + rep.seed, 1, 4 if quick else 1), "c09-mc")
+    rep.distinct.update(range(n))
+    hist_stage(rep, "c09-array-edges", ["array-run"], "array", "ArrayTrace.tla", "ArrayTrace_C09.cfg", files, "edge", "slab leak or dangling reference")
+    map_collide_stage(rep, "MapTrace_C09.cfg", "slab leak or dangling reference", "c09", 255, 3, (1, 24) if quick else (1, 2))
+    map_walk_stage(rep, "MapTrace_C09.cfg", "slab leak or dangling reference", "c09", 256, 24, "clustered", 5, "{12, 40, 100}", 107, 16 if quick else 300, 120 if quick else 300)
+    nested_stages(rep, "c09", "NestedTrace_C09.cfg", "slab leak or dangling reference")
+
+
 def check_C03(rep):
     rep.rule = ("(a) storage level: SlabStorage closure, every explored history replayed, commit / recreate / retrieve events strict, "
                 "BaseOnlyInCommit + TempNeverWritten + CommitOK + DropReverts; (b) container level: TLC-explored array histories with "
@@ -760,6 +894,9 @@ CHECKS = {
     "C04": check_C04,
     "C05": check_C05,
     "C07": check_C07,
+    "C09": check_C09,
+    "C10": check_C10,
+    "C11": check_C11,
     "C08": check_C08,
     "C12": check_C12,
     "C14": check_C14,
